@@ -64,7 +64,7 @@ func main() {
 		fmt.Println(string(b2))
 		return
 	}
-	kinds := map[string]string{"mixed": "gtfr", "geometry": "g", "text": "t"}[mode]
+	kinds := map[string]string{"mixed": "gtfrs", "geometry": "g", "text": "t", "backends": "s"}[mode]
 	jobs := workload.Jobs(seed, n, kinds)
 	solo := make([]string, len(jobs))
 	for i, j := range jobs {
